@@ -144,6 +144,13 @@ def coqc(path, timeout=600):
 _STRING_RE = re.compile(r'"((?:[^"]|"")*)"')
 
 
+def _unlimited_stack():
+	"""coqc recurses deeply on long literals (vm_compute of a cases file): lift the soft stack limit to the hard one."""
+	import resource
+	_soft, hard = resource.getrlimit(resource.RLIMIT_STACK)
+	resource.setrlimit(resource.RLIMIT_STACK, (hard, hard))
+
+
 _IMPORTS_BUILT = set()
 
 
@@ -189,7 +196,7 @@ def coq_eval(imports, exprs, tag, shard=250, timeout=900):
 			name = pending.pop(0)
 			proc = subprocess.Popen(
 				['timeout', str(timeout), 'coqc', '-Q', str(COQ), 'Symv', str(work / f'{name}.v')],
-				stdout=subprocess.PIPE, stderr=subprocess.STDOUT, text=True)
+				stdout=subprocess.PIPE, stderr=subprocess.STDOUT, text=True, preexec_fn=_unlimited_stack)
 			running.append((name, proc))
 		name, proc = running.pop(0)
 		out, _ = proc.communicate()
